@@ -133,8 +133,11 @@ func (q *DateRangeStringQuery) Searcher(ctx context.Context, i index.IndexReader
 }
 
 func (q *DateRangeStringQuery) parseEndpoints(startTime, endTime time.Time) (*float64, *float64, error) {
-	min := math.Inf(-1)
-	max := math.Inf(1)
+	// an open end must cover every representable timestamp: date values are
+	// int64 nanoseconds, and the sortable int64 of +/-Inf lies INSIDE that
+	// range (timestamps after 2262-02-18 / before 1677-11-12 would be cut)
+	min := numeric.Int64ToFloat64(math.MinInt64)
+	max := numeric.Int64ToFloat64(math.MaxInt64)
 
 	if startTime.IsZero() && endTime.IsZero() {
 		return nil, nil, fmt.Errorf("date range query must specify at least one of start/end")
